@@ -143,7 +143,7 @@ Section ZoneInst.
     { replace (mkdate _ _ _) with (P (date_ord (z_date x) + k)) by (destruct (P (date_ord (z_date x) + k)); reflexivity).
       unfold wall_of_date, z_wall. rewrite Eo. unfold wall_of_date. lia. }
     rewrite Ew. unfold create, convert_naive. cbv zeta.
-    assert (Rg' : wall_in_range (z_wall x + k * us_per_day) = true) by (rewrite Er; exact E).
+    pose proof Er as Rg'.
     destruct (_ >? _).
     - match goal with |- context [wall_in_range ?w] => destruct (wall_in_range w) eqn:E' end; cbn [res_of sim]; [apply zdt_of_wall_R; exact E'|reflexivity].
     - cbn [andb]. rewrite andb_false_r. cbn [res_of sim]. apply zdt_of_wall_R. exact Rg'.
